@@ -86,7 +86,19 @@ var kwValueExprs = []string{"1", "\"s\"", "1.5", ":sym", "nil", "[1]", "true", "
 // genKwCall builds one program with a keyword-taking method and a call.
 func genKwCall(r *RNG) *kwCase {
 	nk := 2 + r.Intn(4) // 2..5 keywords
-	names := []string{"alpha", "beta", "gamma", "delta", "omega"}[:nk]
+	// name families: plain words; names of which one is another plus a digit, a letter or an
+	// underscore (their order depends on how ties at the common prefix are broken); single letters
+	// declared in descending order
+	names := append([]string{}, Pick(r, [][]string{
+		{"alpha", "beta", "gamma", "delta", "omega"},
+		{"alpha", "beta", "gamma", "delta", "omega"},
+		{"v", "v2", "v10", "va", "v_"},
+		{"key2", "key", "key_b", "ke", "keyb"},
+		{"e", "d", "c", "b", "a"},
+	})[:nk]...)
+	if r.Chance(1, 3) {
+		Shuffle(r, names)
+	}
 	required := make([]bool, nk)
 	var params []string
 	npos := r.Intn(3)
